@@ -293,7 +293,7 @@ func c20Revert(c *core.Ctx) {
 	isUse := func(i ssa.Instruction) bool {
 		cc := core.AsCall(i)
 		if cc != nil && !cc.IsInvoke() {
-			if p, ok := cc.Value.(*ssa.Parameter); ok && p.Name() == "callback" {
+			if p, ok := cc.Value.(*ssa.Parameter); ok && len(fn.Params) > 2 && p == fn.Params[2] {
 				return true
 			}
 		}
@@ -321,7 +321,7 @@ func c20Revert(c *core.Ctx) {
 	f2 := core.ReachableWithout(core.After(pop), toBridge, func(i ssa.Instruction) bool {
 		cc := core.AsCall(i)
 		if cc != nil && !cc.IsInvoke() {
-			if p, ok := cc.Value.(*ssa.Parameter); ok && p.Name() == "callback" {
+			if p, ok := cc.Value.(*ssa.Parameter); ok && len(fn.Params) > 2 && p == fn.Params[2] {
 				return true
 			}
 		}
